@@ -71,8 +71,16 @@ func (l *Ledger) Note(format string, a ...interface{}) {
 
 func (l *Ledger) Count(name string, n int) { l.Counters[name] += n }
 
-// Infra records an infrastructure failure (missing anchor, vacuity): exit 2.
+// Infra records that an anchor of a rule no longer resolves or a rule matched fewer constructs than its floor
+// (vacuity). The code no longer has a shape the rule understands: reported as an undecided obligation
+// (VIOLATION, exit 1), never as "held".
 func (l *Ledger) Infra(format string, a ...interface{}) {
+	msg := fmt.Sprintf(format, a...)
+	l.Add("anchor", keyHash(msg), "", Undecided, msg)
+}
+
+// Fatal records a checker failure (panic): exit 2.
+func (l *Ledger) Fatal(format string, a ...interface{}) {
 	l.infraErrs = append(l.infraErrs, fmt.Sprintf(format, a...))
 }
 
@@ -186,10 +194,8 @@ func keyHash(k string) string {
 func (l *Ledger) Finish(o finishOpts) int {
 	known, err := loadKnown(filepath.Join(o.verifDir, "known_findings.json"))
 	if err != nil {
-		l.Infra("known_findings.json unreadable: %v", err)
+		l.Fatal("known_findings.json unreadable: %v", err)
 	}
-	sort.SliceStable(l.Obls, func(i, j int) bool { return l.Obls[i].Key < l.Obls[j].Key })
-
 	// floors (vacuity guard) — not applied when re-deciding a single obligation
 	if l.only == "" {
 		var rules []string
@@ -204,6 +210,8 @@ func (l *Ledger) Finish(o finishOpts) int {
 		}
 	}
 
+	sort.SliceStable(l.Obls, func(i, j int) bool { return l.Obls[i].Key < l.Obls[j].Key })
+	l.RuleText["anchor"] = "every anchor of the property's rules resolves and every rule matches at least the number of constructs confirmed by hand (vacuity guard)"
 	nViol, nKnown, nDis := 0, 0, 0
 	var lines []string
 	replayDir := filepath.Join(o.verifDir, "evidence", "replay")
